@@ -29,12 +29,14 @@ RUNS = [
 ]
 
 
-def run_all(repo, R, rule="AXTYPE-K", relevant=None):
+def run_all(repo, R, rule="AXTYPE-K", relevant=None, names=None):
     """-> list of (name, func, extractor or None).  Ill-typed kernels are reported under `rule`; with `relevant` (a predicate on the
     bases of the axes that do not fit) only the mismatches the calling property is about - the others belong to the property of the
     operator itself and are left to its check."""
     out = []
     for name, qual, envf, ifh in RUNS:
+        if names is not None and name.split("[")[0] not in names:
+            continue  # an operator the calling property does not speak about
         f = repo.func(qual)
         R.note_function(f.qualname)
         for choices, ex in run_public_forks(repo, f, envf, ifh):
